@@ -24,6 +24,9 @@ class FnSource:
     consts: dict = field(default_factory=dict)   # module-level int/float/bool/str constants
     module_funcs: dict = field(default_factory=dict)  # name -> ast.FunctionDef of the same module
     stmt_ord: dict = field(default_factory=dict)  # id(stmt) -> pre-order ordinal
+    if_ord: dict = field(default_factory=dict)    # id(If) -> k   (pre-order)
+    loop_ord: dict = field(default_factory=dict)  # id(For/While) -> "0", "0.0", "1", ... (nesting path)
+    after_key: dict = field(default_factory=dict)  # id(stmt) -> "after <pattern> #k" (k-th statement of that pattern)
 
 
 def module_path(module: str) -> str:
@@ -131,21 +134,59 @@ def get_function(qualname: str) -> FnSource:
     fs = FnSource(qualname, path, node, src, h)
     fs.consts = _module_consts(tree, module)
     fs.module_funcs = {s.name: s for s in tree.body if isinstance(s, ast.FunctionDef)}
+    index_function(fs)
+    return fs
+
+
+def stmt_pattern(s):
+    if isinstance(s, (ast.Assign, ast.AnnAssign, ast.AugAssign)):
+        t = s.targets[0] if isinstance(s, ast.Assign) else s.target
+        return "assign " + unparse(t)
+    if isinstance(s, ast.Expr) and isinstance(s.value, ast.Call):
+        return "call " + unparse(s.value.func)
+    if isinstance(s, ast.While):
+        return "while"
+    if isinstance(s, ast.For):
+        return "for"
+    if isinstance(s, ast.If):
+        return "if"
+    return None
+
+
+def index_function(fs: FnSource):
+    """Syntactic (pre-order) ordinals: statements, ifs, loops, 'after <pattern> #k' keys."""
     n = 0
-    for sub in ast.walk(node):
-        pass
-    # pre-order statement ordinals
-    def visit(stmts):
-        nonlocal n
+    nif = 0
+    pat_counts: dict = {}
+
+    def visit(stmts, loop_path, counter):
+        nonlocal n, nif
         for s in stmts:
             fs.stmt_ord[id(s)] = n
             n += 1
-            for fld in ("body", "orelse", "finalbody"):
-                b = getattr(s, fld, None)
-                if isinstance(b, list) and b and isinstance(b[0], ast.stmt):
-                    visit(b)
-    visit(strip_doc(node.body))
-    return fs
+            pat = stmt_pattern(s)
+            if pat is not None:
+                k = pat_counts.get(pat, 0)
+                pat_counts[pat] = k + 1
+                fs.after_key[id(s)] = f"after {pat} #{k}"
+            if isinstance(s, ast.If):
+                fs.if_ord[id(s)] = nif
+                nif += 1
+                visit(s.body, loop_path, counter)
+                visit(s.orelse, loop_path, counter)
+            elif isinstance(s, (ast.For, ast.While)):
+                me = loop_path + [counter[0]]
+                counter[0] += 1
+                fs.loop_ord[id(s)] = ".".join(str(x) for x in me)
+                visit(s.body, me, [0])
+                visit(s.orelse, loop_path, counter)
+            else:
+                for fld in ("body", "orelse", "finalbody"):
+                    b = getattr(s, fld, None)
+                    if isinstance(b, list) and b and isinstance(b[0], ast.stmt):
+                        visit(b, loop_path, counter)
+    if fs.node is not None:
+        visit(strip_doc(fs.node.body), [], [0])
 
 
 def unparse(e: ast.AST) -> str:
